@@ -22,12 +22,30 @@ open CTV CTV.Model.Config
 
 /-! ## Well-formedness, clause by clause as the property lists them -/
 
-/-- "a usable external-storage connection string": non-empty, `scheme://rest` with exactly one `://`,
-scheme `mysql` and a data source name the MySQL driver parses, or scheme `postgres`/`postgresql` and a string
-pgx parses. -/
+/-- "a usable external-storage connection string": non-empty, `scheme://rest` with exactly one `://`, a scheme of
+the validator's (regenerated) scheme switch, and a data source name that scheme's driver parses. -/
 def Usable (c : LogConfig) : Prop :=
   c.conn ≠ [] ∧ ∃ scheme rest, splitOnce c.conn sepScheme = some (scheme, rest) ∧ hasInfix rest sepScheme = false ∧
-    ((scheme = mysqlBytes ∧ c.dsnOk = true) ∨ ((scheme = postgresBytes ∨ scheme = postgresqlBytes) ∧ c.pgOk = true))
+    ((schemeParser scheme = some "mysql" ∧ c.dsnOk = true) ∨ (schemeParser scheme = some "pg" ∧ c.pgOk = true))
+
+/-- the regenerated scheme switch is: `mysql` → MySQL DSN parser; `postgres`, `postgresql` → pgx parser; nothing else -/
+theorem scheme_switch (scheme : Bytes) :
+    (schemeParser scheme = some "mysql" ↔ scheme = mysqlBytes) ∧
+    (schemeParser scheme = some "pg" ↔ (scheme = postgresBytes ∨ scheme = postgresqlBytes)) ∧
+    (∀ p, schemeParser scheme = some p → p = "mysql" ∨ p = "pg") := by
+  unfold schemeParser Gen.connSchemes
+  simp only [List.lookup]
+  by_cases h1 : scheme = mysqlBytes
+  · subst h1; decide
+  by_cases h2 : scheme = postgresBytes
+  · subst h2; decide
+  by_cases h3 : scheme = postgresqlBytes
+  · subst h3; decide
+  have e1 : (scheme == [109, 121, 115, 113, 108]) = false := by simpa [mysqlBytes] using h1
+  have e2 : (scheme == [112, 111, 115, 116, 103, 114, 101, 115]) = false := by simpa [postgresBytes] using h2
+  have e3 : (scheme == [112, 111, 115, 116, 103, 114, 101, 115, 113, 108]) = false := by
+    simpa [postgresqlBytes, postgresBytes] using h3
+  simp [e1, e2, e3, h1, h2, h3]
 
 /-- The property's notion of a well-formed single log configuration. -/
 structure WellFormed (c : LogConfig) : Prop where
@@ -64,13 +82,12 @@ theorem usable_shape (c : LogConfig) (h : Usable c) :
       (scheme = mysqlBytes ∨ scheme = postgresBytes ∨ scheme = postgresqlBytes) := by
   obtain ⟨_, scheme, rest, hs, hi, hk⟩ := h
   refine ⟨scheme, rest, splitOnce_sound _ _ _ _ hs, hi, ?_⟩
-  rcases hk with ⟨h, _⟩ | ⟨h | h, _⟩
-  · exact Or.inl h
-  · exact Or.inr (Or.inl h)
-  · exact Or.inr (Or.inr h)
+  rcases hk with ⟨h, _⟩ | ⟨h, _⟩
+  · exact Or.inl ((scheme_switch scheme).1.mp h)
+  · exact Or.inr ((scheme_switch scheme).2.1.mp h)
 
 theorem connOk_iff (c : LogConfig) : connOk c = .ok () ↔ Usable c := by
-  unfold connOk Usable Gen.cfgConnMissing
+  unfold connOk Usable Gen.cfgConnMissing Gen.cfgConnPartsBad connParts
   by_cases h0 : c.conn = []
   · simp [h0]
   · have hl : ¬ ((c.conn.length : Int) = 0) := by
@@ -84,42 +101,43 @@ theorem connOk_iff (c : LogConfig) : connOk c = .ok () ↔ Usable c := by
       by_cases hi : hasInfix rest sepScheme = true
       · simp only [hi, if_true]
         constructor
-        · intro h; cases h
+        · intro h; simp at h
         · rintro ⟨s, r, ⟨rfl, rfl⟩, h, _⟩; simp [hi] at h
       · have hi' : hasInfix rest sepScheme = false := by simpa using hi
         simp only [hi', Bool.false_eq_true, if_false]
-        by_cases hm : scheme = mysqlBytes
-        · subst hm
-          cases hd : c.dsnOk
-          · simp only [if_true, Bool.false_eq_true, if_false]
-            constructor
-            · intro h; cases h
-            · rintro ⟨s, r, ⟨rfl, rfl⟩, _, h⟩
-              rcases h with ⟨_, h⟩ | ⟨h, _⟩
-              · cases h
-              · rcases h with h | h <;> exact absurd h (by decide)
-          · simp only [if_true]
-            exact ⟨fun _ => ⟨_, _, ⟨rfl, rfl⟩, hi', Or.inl ⟨rfl, trivial⟩⟩, fun _ => trivial⟩
-        · simp only [hm, if_false]
-          by_cases hp : scheme = postgresBytes ∨ scheme = postgresqlBytes
-          · simp only [hp, if_true]
+        have hdec : ¬ (decide ((2 : Int) ≠ 2) = true) := by decide
+        have h22 : (decide (((2 : Nat) : Int) ≠ 2)) = false := by decide
+        simp only [h22, Bool.false_eq_true, if_false]
+        cases hp : schemeParser scheme with
+        | none =>
+          simp only []
+          constructor
+          · intro h; cases h
+          · rintro ⟨s, r, ⟨rfl, rfl⟩, _, h⟩; rcases h with ⟨h, _⟩ | ⟨h, _⟩ <;> simp [hp] at h
+        | some pr =>
+          rcases (scheme_switch scheme).2.2 pr hp with rfl | rfl
+          · simp only []
+            cases hd : c.dsnOk
+            · simp only [Bool.false_eq_true, if_false]
+              constructor
+              · intro h; cases h
+              · rintro ⟨s, r, ⟨rfl, rfl⟩, _, h⟩
+                rcases h with ⟨_, h⟩ | ⟨h, _⟩
+                · cases h
+                · rw [hp] at h; simp at h
+            · simp only [if_true]
+              exact ⟨fun _ => ⟨_, _, ⟨rfl, rfl⟩, hi', Or.inl ⟨hp, trivial⟩⟩, fun _ => trivial⟩
+          · simp only []
             cases hg : c.pgOk
             · simp only [Bool.false_eq_true, if_false]
               constructor
               · intro h; cases h
               · rintro ⟨s, r, ⟨rfl, rfl⟩, _, h⟩
                 rcases h with ⟨h, _⟩ | ⟨_, h⟩
-                · exact absurd h hm
+                · rw [hp] at h; simp at h
                 · cases h
             · simp only [if_true]
               exact ⟨fun _ => ⟨_, _, ⟨rfl, rfl⟩, hi', Or.inr ⟨hp, trivial⟩⟩, fun _ => trivial⟩
-          · simp only [hp, if_false]
-            constructor
-            · intro h; cases h
-            · rintro ⟨s, r, ⟨rfl, rfl⟩, _, h⟩
-              rcases h with ⟨h, _⟩ | ⟨h, _⟩
-              · exact absurd h hm
-              · exact absurd h hp
 
 /-- **validate_iff_wellformed.** `ValidateLogConfig` accepts a configuration exactly when it is well-formed,
 for every message and every outcome of the library oracles. -/
@@ -233,7 +251,7 @@ def exLog : LogConfig :=
     dsnOk := false, pgOk := false, backend := [97] }
 /-- a frozen mirror -/
 def exFrozenMirror : LogConfig :=
-  { exLog with pub := .good, priv := .absent, isMirror := true, frozen := some ⟨true, true, true, 766⟩ }
+  { exLog with pub := .good, priv := .absent, isMirror := true, frozen := some ⟨true, true, true, ⟨766, 1538659276115, [1, 2], [4, 3]⟩⟩ }
 /-- external chain storage with `mysql://x` -/
 def exCtfe : LogConfig :=
   { exLog with storage := 1, conn := [109, 121, 115, 113, 108, 58, 47, 47, 120], dsnOk := true }
@@ -254,7 +272,7 @@ example : validate { exLog with limit := some ⟨1599999999, 999999999⟩ } = .e
 example : validate { exLog with emd := 86401 } = .error .mergeDelay := by decide
 example : validate { exLog with rejectExpired := true } = .error .rejectAll := by decide
 example : validate { exFrozenMirror with priv := .good } = .error .mirrorPriv := by decide
-example : validate { exFrozenMirror with frozen := some ⟨true, true, false, 766⟩ } = .error .sthSig := by decide
+example : validate { exFrozenMirror with frozen := some ⟨true, true, false, ⟨766, 0, [], []⟩⟩ } = .error .sthSig := by decide
 example : validate { exLog with start := some ⟨0, 1000000000⟩ } = .error .startTs := by decide
 
 /-! ## Configuration sets -/
@@ -399,27 +417,68 @@ theorem read_endpoints_always (c : LogConfig) :
 example : normPrefix [108, 111, 103] = [47, 108, 111, 103] ∧ normPrefix [47, 47, 97, 47, 47] = [47, 47, 97] ∧
     normPrefix [47] = [] ∧ normPrefix [] = [] := by decide
 
-/-- what `SetUpInstance` returns is determined by the configuration: handler set and getter kind -/
+/-- **prefix normalisation** of `Handlers` (`"/" + prefix` unless it already starts with `/`, then `strings.TrimRight(prefix, "/")`):
+the result never ends in `/`, starts with `/` unless it is empty, and is the (slash-prefixed) prefix minus trailing
+slashes only — so every handler key is `normalised prefix ++ endpoint path`. -/
+theorem normPrefix_spec (p : Bytes) :
+    (normPrefix p).getLast? ≠ some slash ∧
+    (normPrefix p ≠ [] → (normPrefix p).head? = some slash) ∧
+    ∃ t, (if hasPrefix p [slash] then p else slash :: p) = normPrefix p ++ t ∧ ∀ x ∈ t, x = slash := by
+  unfold normPrefix
+  obtain ⟨h1, t, ht, hall⟩ := trimRightByte_spec slash (if hasPrefix p [slash] then p else slash :: p)
+  refine ⟨h1, ?_, t, ht, hall⟩
+  intro hne
+  have hq : (if hasPrefix p [slash] then p else slash :: p).head? = some slash := by
+    by_cases hp : hasPrefix p [slash] = true
+    · simp only [hp, if_true]
+      have := hasPrefix_sound p [slash] hp
+      rw [this]; rfl
+    · simp [hp]
+  rw [ht] at hq
+  cases hr : trimRightByte slash (if hasPrefix p [slash] then p else slash :: p) with
+  | nil => exact absurd hr hne
+  | cons a r => rw [hr] at hq; simpa using hq
+
+theorem handler_keys (c : LogConfig) : handlersOf c = (endpoints c).map fun e => normPrefix c.pfx ++ str e := rfl
+
+/-- what `SetUpInstance` returns is determined by the configuration: handler set, getter kind, frozen STH, and whether
+chains go to external storage — for both storage backends -/
 theorem setUp_matches (c : LogConfig) (o : SetupOracle) (inst : Instance) (h : setUp c o = some inst) :
     inst.paths = endpoints c ∧ inst.keys = handlersOf c ∧
     inst.getter = Gen.sthGetterSelect c.frozen.isSome c.isMirror ∧
-    (∀ f, c.frozen = some f → inst.frozenSize = f.size) := by
+    (∀ f, c.frozen = some f → inst.frozen = f.sth) ∧
+    (inst.external = true ↔ c.storage = Gen.storageBackendCtfe) := by
   unfold setUp at h
   repeat (split at h; · cases h)
-  cases h
-  refine ⟨rfl, rfl, rfl, ?_⟩
-  intro f hf; simp [hf]
+  simp only at h
+  have hne : Gen.storageBackendTrillian ≠ Gen.storageBackendCtfe := by decide
+  split at h
+  · rename_i ht
+    cases h
+    refine ⟨rfl, rfl, rfl, ?_, ?_⟩
+    · intro f hf; simp [hf]
+    · simp only [Bool.false_eq_true, false_iff]; rw [ht]; exact hne
+  · split at h
+    · rename_i hc
+      split at h
+      · cases h
+        refine ⟨rfl, rfl, rfl, ?_, ?_⟩
+        · intro f hf; simp [hf]
+        · simp [hc]
+      · cases h
+    · cases h
 
 /-- a log that is not a mirror cannot be set up without roots; nothing is set up when a file, the signer, the key
-consistency check or the OID list fails -/
+consistency check or the OID list fails; external storage needs its database handle and its cache -/
 theorem setUp_requires (c : LogConfig) (o : SetupOracle) (inst : Instance) (h : setUp c o = some inst) :
     (c.isMirror = false → o.nRoots ≠ 0 ∧ o.signerOk = true ∧ (c.pub = .good → o.pubConsistent = true)) ∧
-    o.rootsLoad = true ∧ o.oidsOk = true := by
+    o.rootsLoad = true ∧ o.oidsOk = true ∧
+    (c.storage = Gen.storageBackendTrillian ∨ (c.storage = Gen.storageBackendCtfe ∧ o.dbOpens = true ∧ o.cacheOk = true)) := by
   unfold setUp at h
   repeat (split at h; · cases h)
-  rename_i h1 h2 h3 h4 h5 h6
+  rename_i h1 h2 h3 h4 h5
   simp only [Gen.setupNeedsRoots, Bool.and_eq_true, Bool.not_eq_true', decide_eq_true_eq, not_and, Bool.not_eq_false] at h1 h2 h3 h4 h5
-  refine ⟨fun hm => ⟨?_, ?_, ?_⟩, ?_, ?_⟩
+  refine ⟨fun hm => ⟨?_, ?_, ?_⟩, ?_, ?_, ?_⟩
   · intro hz; exact h1 hm (by simp [hz])
   · cases hs : o.signerOk
     · exact absurd hs (by simpa using h3 hm)
@@ -434,14 +493,26 @@ theorem setUp_requires (c : LogConfig) (o : SetupOracle) (inst : Instance) (h : 
   · cases ho : o.oidsOk
     · simp [ho] at h5
     · rfl
+  · simp only at h
+    split at h
+    · rename_i ht; exact Or.inl ht
+    · split at h
+      · rename_i hc
+        split at h
+        · rename_i hb
+          simp only [Bool.and_eq_true] at hb
+          exact Or.inr ⟨hc, hb.1, hb.2⟩
+        · cases h
+      · cases h
 
-/-- **frozen_only_frozen.** An instance built from a configuration with a frozen STH serves that STH whatever
-the backend, the mirror storage or the signer do. -/
+/-- **frozen_only_frozen.** An instance built from a configuration with a frozen STH serves exactly that STH — size,
+timestamp, root hash and signature bytes — whatever the backend, the mirror storage or the signer do, for both
+storage backends. -/
 theorem frozen_only_frozen (c : LogConfig) (o : SetupOracle) (inst : Instance) (f : FrozenOracle)
     (hf : c.frozen = some f) (h : setUp c o = some inst)
-    (backend : Option Nat) (storage : Int → Option Nat) (signOk : Bool) :
-    serveSth inst backend storage signOk = some f.size := by
-  obtain ⟨_, _, hg, hz⟩ := setUp_matches c o inst h
+    (backend : Option Sth) (storage : Int → Option Sth) (sign : Option Bytes) :
+    serveSth inst backend storage sign = some f.sth := by
+  obtain ⟨_, _, hg, hz, _⟩ := setUp_matches c o inst h
   have : inst.getter = 0 := by rw [hg]; simp [hf, Gen.sthGetterSelect]
   unfold serveSth
   rw [this, hz f hf]
@@ -450,55 +521,92 @@ theorem frozen_only_frozen (c : LogConfig) (o : SetupOracle) (inst : Instance) (
 /-- **mirror_le_backend.** A (non-frozen) mirror never serves an STH larger than its backend tree, and serves
 none without a backend root — provided the STH storage honours `GetMirrorSTH`'s contract
 (`TreeSize ≤ maxTreeSize`). Holds for every uint64 tree size, including those ≥ 2^63 where the code's
-`int64(currentRoot.TreeSize)` wraps negative. -/
+`int64(currentRoot.TreeSize)` wraps negative; what is served is the storage's STH unchanged. -/
 theorem mirror_le_backend (c : LogConfig) (o : SetupOracle) (inst : Instance)
     (hm : c.isMirror = true) (hz : c.frozen = none) (h : setUp c o = some inst)
-    (storage : Int → Option Nat) (contract : ∀ m s, storage m = some s → (s : Int) ≤ m) (signOk : Bool) :
-    serveSth inst none storage signOk = none ∧
-    ∀ n s, serveSth inst (some n) storage signOk = some s → s ≤ n := by
-  obtain ⟨_, _, hg, _⟩ := setUp_matches c o inst h
+    (storage : Int → Option Sth) (contract : ∀ m s, storage m = some s → (s.size : Int) ≤ m) (sign : Option Bytes) :
+    serveSth inst none storage sign = none ∧
+    ∀ b s, serveSth inst (some b) storage sign = some s → s.size ≤ b.size ∧ ∃ m, storage m = some s := by
+  obtain ⟨_, _, hg, _, _⟩ := setUp_matches c o inst h
   have hg1 : inst.getter = 1 := by rw [hg]; simp [hz, hm, Gen.sthGetterSelect]
   unfold serveSth
   rw [hg1]
   refine ⟨rfl, ?_⟩
-  intro n s hs
+  intro b s hs
+  simp only at hs
   have h1 := contract _ _ hs
-  have h2 : Gen.mirrorMaxTreeSize (n : Int) ≤ n := by
+  have h2 : Gen.mirrorMaxTreeSize (b.size : Int) ≤ b.size := by
     unfold Gen.mirrorMaxTreeSize
     first
       | exact wrap64_le_self _ (by omega)
       | omega
-  omega
+  exact ⟨by omega, _, hs⟩
 
-example : (setUp exLog ⟨1, true, true, true, true⟩).map (fun i => (i.paths, i.getter)) = some (endpoints exLog, 2) := by decide
+/- FULL ("a mirror never serves an STH larger than its backend tree"): the statement above without `hz` and without
+   `contract`. Two declared gaps. (1) A *frozen mirror* serves its frozen STH whatever the backend holds — the two
+   sentences of the property meet; `Gen.sthGetterSelect` tests the frozen STH first (example below). (2)
+   `MirrorSTHGetter.GetSTH` has no check of its own (sth.go carries two TODOs): the bound rests on the pluggable
+   `MirrorSTHStorage` honouring `GetMirrorSTH(ctx, maxTreeSize)`; with a storage that does not, the mirror serves
+   whatever it returns (the harness's `o<k>` storage shows it). -/
+
+example : (setUp exLog ⟨1, true, true, true, true, true, true⟩).map (fun i => (i.paths, i.getter)) = some (endpoints exLog, 2) := by decide
 example : "/ct/v1/add-chain" ∈ endpoints exLog ∧ "/ct/v1/add-chain" ∉ endpoints exFrozenMirror := by decide
-example : (setUp exFrozenMirror ⟨0, true, false, false, true⟩).map (·.getter) = some 0 := by decide
-example : (setUp { exFrozenMirror with frozen := none } ⟨0, true, false, false, true⟩).map (·.getter) = some 1 := by decide
-example : setUp exLog ⟨0, true, true, true, true⟩ = none := by decide
+example : (setUp exFrozenMirror ⟨0, true, false, false, true, true, true⟩).map (·.getter) = some 0 := by decide
+example : (setUp { exFrozenMirror with frozen := none } ⟨0, true, false, false, true, true, true⟩).map (·.getter) = some 1 := by decide
+example : setUp exLog ⟨0, true, true, true, true, true, true⟩ = none := by decide
+/-- an external-storage configuration is set up too (database handle and cache permitting), with the same handlers -/
+example : (setUp exCtfe ⟨1, true, true, true, true, true, true⟩).map (fun i => (i.paths, i.external)) = some (endpoints exCtfe, true) ∧
+    setUp exCtfe ⟨1, true, true, true, true, true, false⟩ = none ∧
+    setUp { exCtfe with storage := 7 } ⟨1, true, true, true, true, true, true⟩ = none := by decide
+/-- the frozen STH is served field for field -/
+example : (setUp exFrozenMirror ⟨0, true, false, false, true, true, true⟩).bind (fun i => serveSth i none (fun _ => none) none) =
+    some ⟨766, 1538659276115, [1, 2], [4, 3]⟩ := by decide
 /-- the contract hypothesis of `mirror_le_backend` is satisfiable: an honest storage knowing sizes up to 1000 -/
-example : ∀ m s, (fun (m : Int) => if m < 0 then none else some (min m.toNat 1000)) m = some s → (s : Int) ≤ m := by
+example : ∀ m (s : Sth), (fun (m : Int) => if m < 0 then none else some ({ size := min m.toNat 1000 } : Sth)) m = some s → (s.size : Int) ≤ m := by
   intro m s h
   by_cases hm : m < 0
   · simp [hm] at h
-  · simp [hm] at h; omega
+  · simp [hm] at h; subst h; simp; omega
 
-/-- Observation (not a defect of the code; the two sentences of the property meet here): a *frozen mirror*
-serves its frozen STH even when the backend tree is smaller — `Gen.sthGetterSelect` tests the frozen STH first. -/
+/-- Observation (the two sentences of the property meet here): a *frozen mirror* serves its frozen STH even when the
+backend tree is smaller — `Gen.sthGetterSelect` tests the frozen STH first. -/
 example : Gen.sthGetterSelect true true = 0 := by decide
 
-/-- a regular log serves the backend's tree size, or nothing -/
+/-- a regular log serves the backend's tree head (size, timestamp, root) under its own signature, or nothing -/
 theorem log_serves_backend (c : LogConfig) (o : SetupOracle) (inst : Instance)
     (hm : c.isMirror = false) (hz : c.frozen = none) (h : setUp c o = some inst)
-    (backend : Option Nat) (storage : Int → Option Nat) (signOk : Bool) (s : Nat)
-    (hs : serveSth inst backend storage signOk = some s) : backend = some s := by
-  obtain ⟨_, _, hg, _⟩ := setUp_matches c o inst h
+    (backend : Option Sth) (storage : Int → Option Sth) (sign : Option Bytes) (s : Sth)
+    (hs : serveSth inst backend storage sign = some s) :
+    ∃ b sg, backend = some b ∧ sign = some sg ∧ s = { b with sig := sg } := by
+  obtain ⟨_, _, hg, _, _⟩ := setUp_matches c o inst h
   have hg2 : inst.getter = 2 := by rw [hg]; simp [hz, hm, Gen.sthGetterSelect]
   unfold serveSth at hs
   rw [hg2] at hs
   cases backend with
   | none => simp at hs
-  | some n =>
-    cases signOk <;> simp at hs
-    rw [hs]
+  | some b =>
+    cases sign with
+    | none => simp at hs
+    | some sg => simp at hs; exact ⟨b, sg, rfl, rfl, hs.symm⟩
+
+/-! ## "never panics": the guards are in the source -/
+
+/-- **panic_guards_present** (regenerated facts; each is `false` on a tree without the corresponding F9 fix, and this
+theorem then stops compiling): every `conn[i]` of `ValidateLogConfig` comes after the `len(conn)` guard, which
+rejects every length but the one the indices need; `ValidateLogMultiConfig` / `BuildLogBackendMap` reach the optional
+sub-messages only through nil-safe getters. "Never panics" beyond these two places is the totality of the model plus
+the panic output class of the correspondence run (declared in notes/C15.md). -/
+theorem panic_guards_present :
+    Gen.connIndexGuarded = true ∧ (∀ n : Int, Gen.cfgConnPartsBad n = false → n = 2) ∧ Gen.multiConfigNilSafe = true := by
+  refine ⟨by decide, ?_, by decide⟩
+  intro n hn
+  simp only [Gen.cfgConnPartsBad] at hn
+  by_cases h : n = 2
+  · exact h
+  · simp [h] at hn
+
+/-- the EKU loop looks at every name and rejects an unknown one (regenerated: no `break` / `continue` / early return
+in the loop; `false` on the tree before the EKU fix) — what `ekusOk = List.all ekuKnown` models -/
+theorem eku_loop_checks_every_name : Gen.ekuLoopChecksEveryName = true ∧ Gen.ekuLoopRejectsUnknown = true := by decide
 
 end C15
